@@ -200,3 +200,18 @@ func Nest(p nestPair, n int, closed bool) string {
 func Deep(r *rand.Rand, n int) string {
 	return Nest(NestPairs[r.IntN(len(NestPairs))], n, r.IntN(4) > 0)
 }
+
+// HeredocLast: programs in which a statement's LAST line is a here-document delimiter (every flavour), followed or not by
+// more statements. Fed line by line they pin down that the statement is handed over right after the delimiter line.
+var HeredocLast = []string{
+	"cat <<EOF\nbody\nEOF\n", "cat <<EOF\nbody\nEOF\necho next\n", "cat <<-EOF\n\tbody\n\tEOF\n", "cat <<'EOF'\n$body\nEOF\n", "cat <<\"EOF\"\nbody\nEOF\nnext\n",
+	"cat <<EOF\nEOF\n", "cat <<E <<F\na\nE\nb\nF\n", "cat <<E | tr a b\nx\nE\n", "a <<E && b\nx\nE\nc\n", "if a; then b <<E\nx\nE\nfi\n", "f() { cat <<E\nx\nE\n}\n",
+	"{ cat <<E\nx\nE\n}\n", "(cat <<E\nx\nE\n)\n", "cat <<E &\nx\nE\nwait\n", "cat <<E; echo b\nx\nE\n", "while read l; do :; done <<E\nx\ny\nE\n", "cat <<E\n$(echo x)\n`y`\nE\nz\n",
+	"x=$(cat <<E\nb\nE\n)\n", "cat <<E\n\nE\n\nnext\n", "cat <<\\E\na\\\nb\nE\n", "cat <<E # c\nx\nE\n# d\n", "! cat <<E\nx\nE\n", "a=1 cat <<E >f\nx\nE\n",
+}
+
+// Always: inputs every run visits regardless of the seed's corpus slice.
+func Always() []string {
+	out := append([]string{}, Pinned...)
+	return append(out, HeredocLast...)
+}
